@@ -797,6 +797,26 @@ def rule_G(ctx):
     for (t1, t2, dim, runs) in fam:
         for mode_name, p in runs:
             one(t1, t2, mode_name, p, dim, optimum(t1, t2, INFP if mode_name == 'MODE_MATCHING_FRECHET' else p, dim))
+    # (g) compare(track1, track2, MODE_COMPARISON_FRECHET): the discrete Frechet distance (the longest link of the best coupling), whichever
+    #     track is given first
+    cmp_ = fn['__name__']('compare')
+    D_ = (0.0, 2.0, 1.0)
+    for t1, t2 in extra + [([A_], [B_, D_, A_]), ([B_, D_, A_], [A_]), ([A_, B_], [B_, D_, A_, A_]), ([D_, A_], [A_, D_, D_]), ([A_], [A_])]:
+        for dim in (2, 3):
+            n_cases += 1
+            want = optimum(t1, t2, INFP, dim)
+            case = {'track 1': [list(p_) for p_ in t1], 'track 2': [list(p_) for p_ in t2], 'dimension': dim}
+            try:
+                got = cmp_(track_of(t1), track_of(t2), modes['MODE_COMPARISON_FRECHET'], 1, dim, False)
+                got2 = cmp_(track_of(t2), track_of(t1), modes['MODE_COMPARISON_FRECHET'], 1, dim, False)
+            except orders.Unsupported as ex:
+                raise shape_error('compare not interpretable: %s' % ex, fm.loc())
+            except orders.PROGRAM_ERRORS as ex:
+                found.setdefault('compare-fails', ('compare(track1, track2, MODE_COMPARISON_FRECHET) does not fail', dict(case, exception='%s: %s' % (type(ex).__name__, str(ex)[:160]))))
+                continue
+            if not close(got, want) or not close(got2, want):
+                found.setdefault('compare', ('compare(track1, track2, MODE_COMPARISON_FRECHET) is the discrete Frechet distance: the longest link of the best monotone coupling, whichever track comes first',
+                                             dict(case, **{'returned': got, 'with the tracks swapped': got2, 'discrete Frechet distance': want})))
     # (d) chained matchings: the first track comes out of an earlier match()
     for mode_name, p in (('MODE_MATCHING_DTW', 1), ('MODE_MATCHING_FDTW', 1), ('MODE_MATCHING_FRECHET', 1)):
         t1, t2, t3 = [A_, B_, C_], [A_, A_, B_, C_], [C_, B_]
